@@ -54,7 +54,7 @@ func intersectFacts(a, b *FactSet) *FactSet {
 	for k, v := range a.Atoms {
 		if _, ok := b.Atoms[k]; ok {
 			n.Atoms[k] = v
-		} else if (v.Op == "<=" || v.Op == "<" || v.Op == "!=") && b.holds1(v) {
+		} else if (v.Op == "<=" || v.Op == "<" || v.Op == "!=") && (b.holds1(v) || b.Holds(v)) {
 			n.Atoms[k] = v // implied on the other side (e.g. 8 <= x there, 8 < x here)
 		}
 	}
@@ -62,7 +62,7 @@ func intersectFacts(a, b *FactSet) *FactSet {
 		if _, ok := n.Atoms[k]; ok {
 			continue
 		}
-		if _, ok := a.Atoms[k]; !ok && (v.Op == "<=" || v.Op == "<" || v.Op == "!=") && a.holds1(v) {
+		if _, ok := a.Atoms[k]; !ok && (v.Op == "<=" || v.Op == "<" || v.Op == "!=") && (a.holds1(v) || a.Holds(v)) {
 			n.Atoms[k] = v
 		}
 	}
@@ -551,6 +551,18 @@ func (fa *Facts) transfer(fs *FactSet, n ast.Node) {
 						fs.add(le(rt, lt))
 						fs.add(le(lt, rt))
 					}
+					// X.f = min(a, b, ..) bounds the field by every operand that does not mention it (max: from below)
+					if rt.Op == "min" || rt.Op == "max" {
+						for _, a := range rt.Args {
+							if (a.Op == "var" || a.Op == "fld" || a.Op == "const") && p.pureTerm(a) && !a.Contains(lt) {
+								if rt.Op == "min" {
+									fs.add(le(lt, a))
+								} else {
+									fs.add(le(a, lt))
+								}
+							}
+						}
+					}
 				}
 			}
 		}
@@ -932,6 +944,11 @@ func (f *FactSet) lowerConst(atoms map[string]*Term, t *Term, depth int) (int64,
 	if t.Op == "len" || t.Op == "cap" {
 		upd(0)
 	}
+	if t.Op == "fld" && curProg != nil {
+		if lo, _, o := curProg.constFieldRange(t.Obj); o {
+			upd(lo)
+		}
+	}
 	return best, ok
 }
 
@@ -972,7 +989,64 @@ func (f *FactSet) upperConst(atoms map[string]*Term, t *Term, depth int) (int64,
 			}
 		}
 	}
+	if t.Op == "fld" && curProg != nil {
+		if _, hi, o := curProg.constFieldRange(t.Obj); o {
+			upd(hi)
+		}
+	}
 	return best, ok
+}
+
+// curProg is the program of the configuration being analysed (the analyses run one
+// configuration at a time); used for package-wide field invariants.
+var curProg *Prog
+
+// constFieldRange: every store to the field anywhere in the package is an integer
+// constant (composite literals included): the field always lies in [lo, hi]
+// (together with the zero value when a constructor leaves it unset).
+func (p *Prog) constFieldRange(o types.Object) (lo, hi int64, ok bool) {
+	f, isVar := o.(*types.Var)
+	if !isVar || !f.IsField() {
+		return 0, 0, false
+	}
+	type rng struct {
+		lo, hi int64
+		ok     bool
+	}
+	memo, _ := p.memo["constfieldrange"].(map[*types.Var]rng)
+	if memo == nil {
+		memo = map[*types.Var]rng{}
+		p.memo["constfieldrange"] = memo
+	}
+	if v, seen := memo[f]; seen {
+		return v.lo, v.hi, v.ok
+	}
+	memo[f] = rng{} // guards against recursion through Term construction
+	res := rng{lo: 0, hi: 0, ok: true} // the zero value
+	n := 0
+	for _, st := range p.FieldStores(f) {
+		n++
+		if st.Rhs == nil || st.Tok != token.ASSIGN && st.Tok != token.DEFINE && !st.InLit {
+			res.ok = false
+			break
+		}
+		c, isC := p.constVal(st.Rhs)
+		if !isC {
+			res.ok = false
+			break
+		}
+		if c < res.lo {
+			res.lo = c
+		}
+		if c > res.hi {
+			res.hi = c
+		}
+	}
+	if n == 0 {
+		res.ok = false
+	}
+	memo[f] = res
+	return res.lo, res.hi, res.ok
 }
 
 // stripBoundedConv removes an integer conversion whose operand is known (by the
